@@ -238,7 +238,7 @@ def summarise(records, tier, seed):
     cov = {
         "evaluations": ag["evaluations"],
         "distinct_nontrivial": len(ag["hashes"]),
-        "rule": "rate-shape models x stiff-state sets (all subsets for n <= 3 on numpy; {}, all, random subsets, foreign names, duplicates elsewhere) x backend; evaluation = one generated call; "
+        "rule": "rate-shape models x stiff-state sets (all subsets for n <= 3 on numpy; {}, all, random subsets, foreign names incl. near misses of a state outside the set - other case, blanks, prefix, extension -, duplicates elsewhere) x backend; evaluation = one generated call; "
         "non-trivial = >= 4 slots of hybrid compared with the same module's generalized_rush_larsen / explicit_euler and RL visibly differs from Euler for some state; distinct by (hash, backend)",
         "samples": C.pick_samples(records),
         "per_class_cases": ag["classes"],
